@@ -5,6 +5,7 @@
    qb_log_ctl2 (lib/log.c).  [.. true ..] = the code with fixes/C13-*.patch applied; [.. false ..] = as found. *)
 From Coq Require Import List ZArith Bool Lia.
 Require Import Verif.gen.Consts_logfmt Verif.SerModel Verif.LogFmtModel Verif.LogFmtProofs Verif.LogFmtWitness.
+Require Import Verif.LogFmtText.
 Import ListNotations.
 Open Scope Z_scope.
 
@@ -81,10 +82,30 @@ Example C13_asfound_ctl_accepts_zero_refuted :
 Proof. exact asfound_ctl_accepts_zero. Qed.
 
 (* ---- text = documented rendering, truncated ----
-   NOT proved for all formats in this round (checked on every generated case by the monitor of props/C13.py and by
-   the extracted [line_spec]).  What is known to be false, also of the repaired code: a '-' (padding in front)
-   field that meets the limit is laid out for the room that is left instead of being cut from the full field
-   (known-finding proposal C13-right-aligned-field-clamped). *)
+   for ALL target formats, messages, call-site data, limits 1 <= L < 2^32, ellipsis on/off, oracle texts and prior
+   contents of the L-byte output buffer, inside the guard [line_guard] (every '-' field that is wider than its text
+   lies entirely below the limit): the buffer holds exactly
+        line_spec = truncate_spec L ell (render_spec ...)        (LogFmtModel.v: literal text and
+        %[-][width]directive fields, cut to L-1 characters, trailing newline dropped, "..." over the last three
+        characters when the line filled the room and the ellipsis option is on)
+   followed by a NUL.  "_partial": outside the guard the formatter lays a '-' field out for the room that is left
+   instead of cutting it from the full field (C13_text_ralign_clamped_refuted; finding C13-right-aligned-field-clamped).
+   Proof: LogFmtText.v (induction over the format; _strcpy_cutoff's layout = first characters of pad_chop). *)
+Theorem C13_text_partial : forall fmt cs msg L ell o garbage,
+  1 <= L < 4294967296 -> zlen garbage = L ->
+  line_guard fmt cs msg L o = true ->
+  exists buf, target_format true fmt cs msg L ell o garbage = FDone buf /\ zlen buf = L /\
+              takeZ (zlen (line_spec fmt cs msg L ell o)) buf = line_spec fmt cs msg L ell o /\
+              rd buf (zlen (line_spec fmt cs msg L ell o)) = 0.
+Proof. exact target_format_text. Qed.
+Print Assumptions C13_text_partial.
+
+(* the guard holds e.g. for "[%p] %-8n|%b" with a limit of 512, and fails for "ab%-10n" with a limit of 8 *)
+Example C13_text_guard_example :
+  line_guard [91;37;112;93;32;37;45;56;110;124;37;98] cs0 hello 512 o0 = true /\
+  line_guard [97;98;37;45;49;48;110] (mkCS [97;98;99] [] 0 0 []) [] 8 o0 = false.
+Proof. vm_compute. split; reflexivity. Qed.
+
 Example C13_text_ralign_clamped_refuted :
   fres_text (target_format true [97;98;37;45;49;48;110] (mkCS [97;98;99] [] 0 0 []) [] 8 false o0 (repeat 90 8))
   <> line_spec [97;98;37;45;49;48;110] (mkCS [97;98;99] [] 0 0 []) [] 8 false o0.
